@@ -4,6 +4,7 @@ import (
 	"bytes"
 	"context"
 	"fmt"
+	"hash/fnv"
 	"strings"
 	"sync"
 	"testing"
@@ -176,32 +177,36 @@ func c09Class(j c09Job) string {
 	return fmt.Sprintf("program op=%s input=%s", c07Shape(j.query), in)
 }
 
-// c09Supported says whether the case lies inside what the vector runtime
-// handles on this tree (count() by a null-free string column of one object;
-// sum of a null-free int64 column): there the exact symptom is kept in the
-// signature, elsewhere any failure is the same recorded limitation.
-func c09Supported(j c09Job) bool {
-	if j.kind != "lake" {
-		return false
+// c09Sig identifies a finding by the individual case (query and input) and by
+// what the vector runtime answered (a digest of its output or error), so that
+// a case that fails differently, or a case that used to agree, is a new
+// violation even where the vector runtime has recorded limitations.
+func c09Sig(j c09Job, symptom string, answer ...string) string {
+	if j.kind == "lake" && len(j.pats) > 1 {
+		// Several objects are scanned concurrently: what exactly the vector runtime
+		// answers when it goes wrong depends on the schedule, the case does not.
+		return fmt.Sprintf("vector %s symptom=%s", j.name, symptom)
 	}
-	cls := c09Class(j)
-	if strings.Contains(j.query, "count()") {
-		return strings.HasSuffix(cls, "column=string")
+	h := fnv.New32a()
+	for _, a := range answer {
+		h.Write([]byte(a))
+		h.Write([]byte{0})
 	}
-	return strings.HasSuffix(cls, "column=int64") || strings.HasSuffix(cls, "column=int64+several-objects")
+	return fmt.Sprintf("vector %s symptom=%s answer=%08x", j.name, symptom, h.Sum32())
 }
 
-func c09Sig(j c09Job, symptom string) string {
-	if c09Supported(j) {
-		return "vector symptom=" + symptom + " " + c09Class(j)
+
+// errHead is the first line of an error's class (the runtime's Catcher appends
+// a stack trace with goroutine numbers and addresses to recovered panics).
+func errHead(err error) string {
+	if err == nil {
+		return "nil"
 	}
-	if j.kind == "lake" {
-		if strings.Contains(j.query, "count()") {
-			return `vector-runtime-limitation lake query="count() by f" input=other-than-one-object-with-a-null-free-string-column`
-		}
-		return `vector-runtime-limitation lake query="sum(f)" input=other-than-null-free-int64-columns`
+	s := err.Error()
+	if i := strings.IndexByte(s, '\n'); i >= 0 {
+		s = s[:i]
 	}
-	return "vector-runtime-limitation " + c09Class(j)
+	return errClass(fmt.Errorf("%s", s))
 }
 
 func init() {
@@ -253,9 +258,9 @@ func c09Run(j c09Job, c *isoCtx) {
 		switch {
 		case rerr != nil && gerr != nil:
 		case (rerr == nil) != (gerr == nil):
-			c.Violation(c09Sig(j, "only-one-runtime-fails"), map[string]any{"case": j.name, "without_vectors_error": fmt.Sprint(rerr), "with_vectors_error": fmt.Sprint(gerr)})
+			c.Violation(c09Sig(j, "only-one-runtime-fails", fmt.Sprint(rerr != nil), fmt.Sprint(gerr != nil)), map[string]any{"case": j.name, "without_vectors_error": fmt.Sprint(rerr), "with_vectors_error": fmt.Sprint(gerr)})
 		case !sameMultiset(formatAll(ref), formatAll(got)):
-			c.Violation(c09Sig(j, "result-changes-when-vectors-are-added"), map[string]any{"case": j.name, "without_vectors": formatAll(ref), "with_vectors": formatAll(got)})
+			c.Violation(c09Sig(j, "result-changes-when-vectors-are-added", sortedCopy(formatAll(got))...), map[string]any{"case": j.name, "without_vectors": formatAll(ref), "with_vectors": formatAll(got)})
 		}
 		return
 	}
@@ -299,9 +304,9 @@ func c09Run(j c09Job, c *isoCtx) {
 	c.Count("programs_run_on_the_vector_runtime", 1)
 	switch {
 	case gerr != nil && strings.HasPrefix(gerr.Error(), "PANIC"):
-		c.Violation(c09Sig(j, "vector-runtime-panics"), map[string]any{"case": j.name, "input": j.input, "panic": gerr.Error()})
+		c.Violation(c09Sig(j, "vector-runtime-panics", errHead(gerr)), map[string]any{"case": j.name, "input": j.input, "panic": gerr.Error()})
 	case (werr == nil) != (gerr == nil):
-		c.Violation(c09Sig(j, "only-one-runtime-fails"), map[string]any{"case": j.name, "sequential_error": fmt.Sprint(werr), "vector_error": fmt.Sprint(gerr)})
+		c.Violation(c09Sig(j, "only-one-runtime-fails", errHead(werr), errHead(gerr)), map[string]any{"case": j.name, "sequential_error": fmt.Sprint(werr), "vector_error": fmt.Sprint(gerr)})
 	case werr != nil:
 	default:
 		same := sameMultiset(formatAll(want), formatAll(got))
@@ -309,7 +314,7 @@ func c09Run(j c09Job, c *isoCtx) {
 			same = strings.Join(formatAll(want), "\n") == strings.Join(formatAll(got), "\n")
 		}
 		if !same {
-			c.Violation(c09Sig(j, "vector-runtime-differs-from-sequential"), map[string]any{"case": j.name, "input": j.input, "sequential": formatAll(want), "vector": formatAll(got)})
+			c.Violation(c09Sig(j, "vector-runtime-differs-from-sequential", formatAll(got)...), map[string]any{"case": j.name, "input": j.input, "sequential": formatAll(want), "vector": formatAll(got)})
 		}
 	}
 }
